@@ -191,68 +191,168 @@ def traversal_idiom(index, ctx):
     ctx.analysed(F.qualname)
     fn = F.node
     cfg = cfg_of(fn)
-    # successor variables: names bound from .next_functions (for-target first element, or subscripts)
-    succ_vars = set()
+    # ---- successor element variables and successor collections, with the conditions known to hold for their elements
+    def is_nf(e):
+        return any(isinstance(x, ast.Attribute) and x.attr == "next_functions" for x in ast.walk(e))
+
+    def first_name(t):
+        t = t.elts[0] if isinstance(t, ast.Tuple) and t.elts else t
+        return t.id if isinstance(t, ast.Name) else None
+
+    def conds_about(tests, var):
+        """{('notnone',), ('notin', S)} implied for `var` by a list of (expr, truth) atomic conditions."""
+        out = set()
+        for c, tr in tests:
+            if isinstance(c, ast.Compare) and len(c.ops) == 1 and isinstance(c.left, ast.Name) and c.left.id == var:
+                op, r = c.ops[0], c.comparators[0]
+                if isinstance(r, ast.Constant) and r.value is None and ((isinstance(op, ast.IsNot) and tr) or (isinstance(op, ast.Is) and not tr)):
+                    out.add(("notnone",))
+                if base_name(r) and ((isinstance(op, ast.NotIn) and tr) or (isinstance(op, ast.In) and not tr)):
+                    out.add(("notin", base_name(r)))
+        return out
+
+    def unwrap(e):
+        while isinstance(e, ast.Call) and norm_text(e.func) in ("list", "tuple", "set", "frozenset", "dict.fromkeys", "OrderedDict.fromkeys", "sorted", "deque", "iter") and len(e.args) >= 1:
+            e = e.args[0]
+        return e
+
+    colls: dict = {}  # collection name -> set of conditions on its elements
+
+    def comp_conds(e):
+        """Conditions on the elements of a comprehension/generator over successors, or None if it is not one."""
+        e = unwrap(e)
+        if isinstance(e, ast.Name) and e.id in colls:
+            return set(colls[e.id])
+        if not isinstance(e, (ast.ListComp, ast.SetComp, ast.GeneratorExp)) or len(e.generators) != 1:
+            return None
+        g = e.generators[0]
+        v = first_name(g.target)
+        if v is None or not (isinstance(e.elt, ast.Name) and e.elt.id == v):
+            return None
+        if is_nf(g.iter):
+            base = set()
+        else:
+            base = comp_conds(g.iter)
+            if base is None:
+                return None
+        tests = []
+        for c in g.ifs:
+            tests += implied_conditions(c, "True")
+        return base | conds_about(tests, v)
+
+    changed = True
+    while changed:
+        changed = False
+        for n in ast.walk(fn):
+            if isinstance(n, ast.Assign) and len(n.targets) == 1 and isinstance(n.targets[0], ast.Name):
+                cs = comp_conds(n.value)
+                if cs is not None and colls.get(n.targets[0].id) != cs:
+                    colls[n.targets[0].id] = cs
+                    changed = True
+    succ_vars = {}  # element variable -> inherited conditions (from the collection it iterates)
     for n in ast.walk(fn):
-        if isinstance(n, ast.For) and any(isinstance(x, ast.Attribute) and x.attr == "next_functions" for x in ast.walk(n.iter)):
-            t = n.target
-            succ_vars.add((t.elts[0] if isinstance(t, ast.Tuple) else t).id)
-        if isinstance(n, ast.Assign) and isinstance(n.targets[0], ast.Name) and any(isinstance(x, ast.Attribute) and x.attr == "next_functions" for x in ast.walk(n.value)):
-            succ_vars.add(n.targets[0].id)
+        if isinstance(n, ast.For):
+            v = first_name(n.target)
+            if v is None:
+                continue
+            if is_nf(n.iter):
+                succ_vars[v] = set()
+            else:
+                cs = comp_conds(n.iter)
+                if cs is not None:
+                    succ_vars[v] = cs
+        if isinstance(n, ast.Assign) and isinstance(n.targets[0], ast.Name) and is_nf(n.value) and comp_conds(n.value) is None and not isinstance(unwrap(n.value), (ast.ListComp, ast.SetComp, ast.GeneratorExp)):
+            succ_vars[n.targets[0].id] = set()
     # worklist and cursor
     pops = [n for n in ast.walk(fn) if isinstance(n, ast.Assign) and isinstance(n.value, ast.Call) and isinstance(n.value.func, ast.Attribute) and n.value.func.attr in ("pop", "popleft")]
-    if len(pops) != 1 or not succ_vars:
+    if len(pops) != 1 or not (succ_vars or colls):
         ctx.undecided("R4", f"{F.short}: worklist", "worklist pop / successor variables not recognised", F.loc())
         return
     cursor = pops[0].targets[0].id
     worklist = base_name(pops[0].value.func.value)
-    # visited set: the set to which successors are added
-    adds = [n for n in ast.walk(fn) if isinstance(n, ast.Call) and isinstance(n.func, ast.Attribute) and n.func.attr == "add" and n.args and isinstance(n.args[0], ast.Name) and n.args[0].id in succ_vars]
-    if not adds:
-        ctx.violated("R4", f"{F.short}: visited set", "adopted successors are never recorded in a visited set (nodes reachable along several paths are traversed repeatedly / never terminate on cycles)", F.loc())
-        return
-    visited = base_name(adds[0].func.value)
     # roots: worklist initialised from roots minus excluded
     init = [n for n in ast.walk(fn) if isinstance(n, ast.Assign) and isinstance(n.targets[0], ast.Name) and n.targets[0].id == worklist]
     roots_ok = bool(init) and any(isinstance(x, ast.BinOp) and isinstance(x.op, ast.Sub) for x in ast.walk(init[0].value))
     ctx.require(roots_ok, "R4", f"{F.short}: traversal starts from the roots minus the excluded nodes", f"`{norm_text(init[0]) if init else ''}`",
                 f"worklist initialisation `{norm_text(init[0]) if init else '?'}` does not subtract the excluded nodes from the roots", F.loc(init[0]) if init else F.loc())
-    # adoptions
+    # adoptions: (cfg node, what is adopted, conditions known, how, is_collection)
     adoptions = []
     for n in cfg.stmt_nodes():
         a = n.ast
         if n.kind != "stmt":
             continue
-        if isinstance(a, ast.Expr) and isinstance(a.value, ast.Call) and isinstance(a.value.func, ast.Attribute) and a.value.func.attr in ("append", "appendleft", "extend", "add") \
-                and base_name(a.value.func.value) == worklist and a.value.args and names_read(a.value.args[0]) & succ_vars:
-            adoptions.append((n, next(iter(names_read(a.value.args[0]) & succ_vars)), "pushed on the worklist"))
-        if isinstance(a, ast.Assign) and isinstance(a.targets[0], ast.Name) and a.targets[0].id == cursor and isinstance(a.value, ast.Name) and a.value.id in succ_vars:
-            adoptions.append((n, a.value.id, "made the current node"))
-    ctx.floor("successor adoption sites", len(adoptions), 1)
-    for n, var, how in adoptions:
-        conds = []
+        guards = []
         for t, lbl in cfg.guards_of(n):
             test = t.ast.test if t.kind == "test" and hasattr(t.ast, "test") else None
             if test is not None:
-                conds += implied_conditions(test, lbl)
-        # break-style guards: `if bad: break/continue` earlier in the same block
-        not_none = any(isinstance(c, ast.Compare) and isinstance(c.left, ast.Name) and c.left.id == var and isinstance(c.comparators[0], ast.Constant) and c.comparators[0].value is None
-                       and ((isinstance(c.ops[0], ast.IsNot) and tr) or (isinstance(c.ops[0], ast.Is) and not tr)) for c, tr in conds)
-        not_seen = any(isinstance(c, ast.Compare) and isinstance(c.left, ast.Name) and c.left.id == var and base_name(c.comparators[0]) == visited
-                       and ((isinstance(c.ops[0], ast.NotIn) and tr) or (isinstance(c.ops[0], ast.In) and not tr)) for c, tr in conds)
-        wrong = [norm_text(c) for c, tr in conds if isinstance(c, ast.Compare) and isinstance(c.ops[0], (ast.In, ast.NotIn)) and not (isinstance(c.left, ast.Name) and c.left.id == var)]
-        marked = any(isinstance(x, ast.Call) and isinstance(x.func, ast.Attribute) and x.func.attr == "add" and base_name(x.func.value) == visited and x.args and isinstance(x.args[0], ast.Name) and x.args[0].id == var
-                     for blk in siblings(fn, n.ast) for x in ast.walk(blk))
-        ctx.require(not_none and not_seen and marked, "R4", f"{F.short}: successor `{var}` {how}", "guarded by `is not None` and `not in` the visited/excluded set, and marked",
-                    f"`{norm_text(n.ast)}`: successor `{var}` is {how} without " + ", ".join(x for x, ok in (("the `is not None` test", not_none), (f"the `{var} not in {visited}` test", not_seen),
-                                                                                                         (f"adding it to `{visited}`", marked)) if not ok)
-                    + (f" (membership is tested on another variable: {wrong})" if wrong and not not_seen else ""), F.loc(n.ast))
+                guards += implied_conditions(test, lbl)
+        if isinstance(a, ast.Expr) and isinstance(a.value, ast.Call) and isinstance(a.value.func, ast.Attribute) and base_name(a.value.func.value) == worklist and a.value.args:
+            arg, meth = a.value.args[0], a.value.func.attr
+            if meth in ("append", "appendleft", "add") and isinstance(arg, ast.Name) and arg.id in succ_vars:
+                adoptions.append((n, arg.id, succ_vars[arg.id] | conds_about(guards, arg.id), "pushed on the worklist", False, guards))
+            elif meth in ("extend", "extendleft", "update"):
+                cs = comp_conds(arg)
+                if cs is not None:
+                    adoptions.append((n, norm_text(arg), cs, "pushed on the worklist", True, guards))
+                elif names_read(arg) & (set(succ_vars) | set(colls)):
+                    ctx.undecided("R4", f"{F.short}: `{norm_text(a)}`", "successors are pushed on the worklist in a form that is not recognised", F.loc(a))
+            elif names_read(arg) & set(succ_vars):
+                ctx.undecided("R4", f"{F.short}: `{norm_text(a)}`", "successors are pushed on the worklist in a form that is not recognised", F.loc(a))
+        if isinstance(a, ast.Assign) and isinstance(a.targets[0], ast.Name) and a.targets[0].id == cursor and isinstance(a.value, ast.Name) and a.value.id in succ_vars:
+            adoptions.append((n, a.value.id, succ_vars[a.value.id] | conds_about(guards, a.value.id), "made the current node", False, guards))
+    ctx.floor("successor adoption sites", len(adoptions), 1)
+    visited_sets = set()
+    for n, what, conds, how, is_coll, guards in adoptions:
+        not_none = ("notnone",) in conds
+        seen_sets = {c[1] for c in conds if c[0] == "notin"}
+        # marking: S.add(var) / S.update(collection) / S |= ... in the same block, for a set S the membership test refers to
+        marked_in = set()
+        for blk_stmt in siblings(fn, n.ast):
+            for x in ast.walk(blk_stmt):
+                if isinstance(x, ast.Call) and isinstance(x.func, ast.Attribute) and x.args:
+                    if x.func.attr == "add" and not is_coll and isinstance(x.args[0], ast.Name) and x.args[0].id == what:
+                        marked_in.add(base_name(x.func.value))
+                    if x.func.attr == "update" and is_coll and norm_text(unwrap(x.args[0])) == norm_text(unwrap(ast.parse(what, mode="eval").body)):
+                        marked_in.add(base_name(x.func.value))
+                if isinstance(x, ast.AugAssign) and isinstance(x.op, ast.BitOr) and is_coll and norm_text(unwrap(x.value)) == norm_text(unwrap(ast.parse(what, mode="eval").body)):
+                    marked_in.add(base_name(x.target))
+        ok_sets = seen_sets & marked_in
+        visited_sets |= ok_sets
+        wrong = [norm_text(c) for c, tr in guards if isinstance(c, ast.Compare) and isinstance(c.ops[0], (ast.In, ast.NotIn)) and not (isinstance(c.left, ast.Name) and c.left.id == what)]
+        if not marked_in and not is_coll and not any(isinstance(x, ast.Call) and isinstance(x.func, ast.Attribute) and x.func.attr in ("add", "update") for x in ast.walk(fn)
+                                                      if isinstance(x, ast.Call) and x.args and names_read(x.args[0]) & (set(succ_vars) | set(colls))):
+            ctx.violated("R4", f"{F.short}: visited set", "adopted successors are never recorded in a visited set (nodes reachable along several paths are traversed repeatedly / never terminate on cycles)", F.loc())
+            continue
+        ctx.require(not_none and bool(ok_sets), "R4", f"{F.short}: successor `{what}` {how}", "guarded by `is not None` and `not in` the visited/excluded set, and marked",
+                    f"`{norm_text(n.ast)}`: successor `{what}` is {how} without " + ", ".join(x for x, ok in (("the `is not None` test", not_none), ("a `not in <visited>` test", bool(seen_sets)),
+                                                                                                          ("adding it to the set the membership test reads", bool(ok_sets) or not seen_sets)) if not ok)
+                    + (f" (membership is tested on another variable: {wrong})" if wrong and not seen_sets else ""), F.loc(n.ast))
+    # the visited set starts from the excluded nodes
+    for vs in sorted(visited_sets):
+        vinit = [x for x in ast.walk(fn) if isinstance(x, ast.Assign) and isinstance(x.targets[0], ast.Name) and x.targets[0].id == vs]
+        params_ = {a.arg for a in fn.args.args}
+        ok = vs in params_ or any(names_read(x.value) & params_ for x in vinit)
+        ctx.require(ok, "R4", f"{F.short}: visited set `{vs}` starts from the excluded nodes", "initialised from the parameter", f"`{vs}` is not initialised from the excluded nodes", F.loc(vinit[0]) if vinit else F.loc())
     # collection depends on the node kind only
     coll = [n for n in cfg.stmt_nodes() if n.kind == "stmt" and isinstance(n.ast, ast.Expr) and isinstance(n.ast.value, ast.Call) and isinstance(n.ast.value.func, ast.Attribute)
             and n.ast.value.func.attr == "add" and n.ast.value.args and isinstance(n.ast.value.args[0], ast.Name) and n.ast.value.args[0].id == cursor]
     for n in coll:
         tests = [t for t, _ in cfg.guards_of(n) if t.kind == "test" and isinstance(t.ast, ast.If)]
-        ok = len(tests) == 1 and "AccumulateGrad" in norm_text(tests[0].ast.test) and cursor in names_read(tests[0].ast.test)
+        def kind_test(e):
+            """The expression (or the one-line predicate it calls on the cursor) looks at the node's class name only."""
+            if "AccumulateGrad" in norm_text(e) and cursor in names_read(e):
+                return True
+            if isinstance(e, ast.Call) and isinstance(e.func, ast.Name) and len(e.args) == 1 and isinstance(e.args[0], ast.Name) and e.args[0].id == cursor and not e.keywords:
+                callee = index.resolve_name(F.module, e.func.id)
+                from ..index import FunctionInfo
+
+                if isinstance(callee, FunctionInfo) and len(callee.node.args.args) == 1:
+                    rets = [r for r in ast.walk(callee.node) if isinstance(r, ast.Return) and r.value is not None]
+                    par = callee.node.args.args[0].arg
+                    return bool(rets) and all("AccumulateGrad" in norm_text(r.value) and names_read(r.value) <= {par, "type", "isinstance"} | {x for x in names_read(r.value) if x[0].isupper()} for r in rets)
+            return False
+
+        ok = len(tests) == 1 and kind_test(tests[0].ast.test)
         ctx.require(ok, "R4", f"{F.short}: collection of leaf accumulators", "conditional on the node kind only", f"`{norm_text(n.ast)}` is guarded by {[norm_text(t.ast.test) for t in tests]}", F.loc(n.ast))
     ctx.floor("collection sites", len(coll), 1)
     # .variable mapping
